@@ -146,6 +146,70 @@ def central_rules(ctx, facts, rep):
     return ok
 
 
+def flagbits_rules(facts, rep, rule="C03-FLAGBITS"):
+    """general-purpose bit flag word (APPNOTE 4.4.4): bit 0 = encrypted, bit 3 = sizes/CRC follow in a data descriptor (for ZipCrypto:
+    the check byte is the time's high byte), bit 11 = UTF-8 (C19-FLAG).  Both parsers take `encrypted` and `using_data_descriptor`
+    from exactly those bits of the flags word they read: the field's expression is evaluated on all 65536 words (however the test is
+    spelled: mask/compare, shift/mask, `!= 0`, `== 1`)."""
+    from engine.expr import eval_int
+    ok = True
+    CMP = {"Eq": lambda a, b: a == b, "Ne": lambda a, b: a != b, "Gt": lambda a, b: a > b, "Ge": lambda a, b: a >= b, "Lt": lambda a, b: a < b, "Le": lambda a, b: a <= b}
+
+    def subst(e, seen):
+        if e[0] == "ok" and e[1][0] == "call" and e[1][1].endswith("read_u16"):
+            seen.add(e[1][4] if len(e[1]) > 4 else e[1][1])
+            return ("arg", 0, "w")
+        if e[0] == "bin":
+            return ("bin", e[1], subst(e[2], seen), subst(e[3], seen))
+        if e[0] == "cast":
+            return ("cast", subst(e[1], seen), e[2], e[3])
+        if e[0] == "un":
+            return ("un", e[1], subst(e[2], seen))
+        return e
+
+    def ev(e, w):
+        if e[0] == "bin" and e[1] in CMP:
+            a, b = ev(e[2], w), ev(e[3], w)
+            return None if a is None or b is None else int(CMP[e[1]](a, b))
+        if e[0] == "un" and e[1] == "Not":
+            a = ev(e[2], w)
+            return None if a is None else int(not a)
+        if e[0] == "bin" and e[1] in ("BitAnd", "BitOr", "BitXor", "Shl", "Shr") :
+            a, b = ev(e[2], w), ev(e[3], w)
+            if a is None or b is None:
+                return None
+            return eval_int(("bin", e[1], ("const", "u32", a), ("const", "u32", b)), {})
+        return eval_int(e, {"w": w})
+
+    n = 0
+    for pat in (r"^read::central_header_to_zip_file_inner$", r"^read::read_zipfile_from_stream$"):
+        f = facts.one(pat)
+        ex = Ex(f)
+        ag = list(aggregates(f, r"types::ZipFileData$"))
+        if not ag:
+            raise AnchorLost("ZipFileData construction in %s" % f.path)
+        bi, si, s, flds = ag[0]
+        words = set()
+        for fld, bit in (("encrypted", 0), ("using_data_descriptor", 3)):
+            n += 1
+            v = norm(ex.operand(flds[fld], (bi, si)))
+            seen = set()
+            e = subst(v, seen)
+            words |= seen
+            good = len(seen) == 1
+            if good:
+                for w in range(1 << 16):
+                    r = ev(e, w)
+                    if r is None or bool(r) != bool((w >> bit) & 1):
+                        good = False
+                        break
+            ok &= rep.check(good, rule, "%s@%s" % (fld, f.path.split("::")[-1]), where(f, s["span"]), "%s = bit %d of the flags word, for all 65536 words" % (fld, bit),
+                            "%s is computed as %s: not bit %d of the general-purpose flags (APPNOTE 4.4.4)" % (fld, show(v)[:90], bit))
+        ok &= rep.check(len(words) == 1, rule, "one-flags-word@%s" % f.path.split("::")[-1], where(f, s["span"]), "both flags come from the same 16-bit read", "the flags are taken from %d different reads" % len(words))
+    rep.floor(rule, 6)
+    return ok
+
+
 def offset_rules(facts, rep):
     rule = "C03-OFFSET"
     ok = True
@@ -397,9 +461,25 @@ def dosmode_rules(facts, rep, rule="C03-DOSMODE"):
         o = _outcome(p)
         val = o[1][2] if o[0] == "Some" and o[1] is not None and o[1][0] == "const" else None
         got.setdefault((d.get(16), d.get(1)), set()).add(val)
+    # "no attributes recorded" (the whole word is zero) reports no mode at all, whatever the made-by system: every path that yields a
+    # mode has seen a non-zero word, and the all-zero word yields None (extraction then leaves the creation mode alone instead of chmod 000)
+    zero_none, some_nonzero, seen0 = True, True, False
+    for p in _paths(f):
+        z = None
+        for a_, v_ in p["decisions"]:
+            if a_ == "self.external_attributes":
+                z = (v_ == 0)
+        o = _outcome(p)
+        if z is True:
+            seen0 = True
+            zero_none = zero_none and o[0] == "None"
+        if o[0] == "Some":
+            some_nonzero = some_nonzero and z is False
+    rep.check(seen0 and zero_none and some_nonzero, rule, "zero-attributes=>None", where(f, f.span), "external_attributes == 0 => unix_mode() is None; Some(..) only for a non-zero word",
+              "unix_mode() no longer answers None for an entry without recorded attributes (all-zero word): such entries get mode 0 / a DOS default on extraction")
     bad = {k: (sorted(x if x is not None else -1 for x in got.get(k, {None})), want[k]) for k in want if got.get(k) != {want[k]}}
     extra = [k for k in got if k not in want]
-    return rep.check(not bad and not extra, rule, "dos-attribute-table", where(f, f.span), "(directory, read-only) -> mode: %s" % {k: oct(v) for k, v in want.items()},
+    return (seen0 and zero_none and some_nonzero) & rep.check(not bad and not extra, rule, "dos-attribute-table", where(f, f.span), "(directory, read-only) -> mode: %s" % {k: oct(v) for k, v in want.items()},
                      "unix_mode() of MS-DOS entries differs from the attribute table at %s (rows decided on other atoms: %s)" % (
                          {k: ([oct(x) for x in v[0]], oct(v[1])) for k, v in bad.items()}, extra))
 
@@ -525,6 +605,7 @@ def run(ctx, rep):
     rep.floor("C03-SEARCH", 4)
     rep.floor("C03-NAMES", 5)
     rep.assume("HashMap::insert overwrites an existing key (std contract)")
+    flagbits_rules(facts, rep)
     from rules.shared_refusals import read_refusals
     read_refusals(ctx, facts, rep)     # C03-REFUSALS: the reader turns away nothing it used to accept (and keeps every refusal it had)
     rep.floor("C03-REFUSALS", 25)
